@@ -43,6 +43,7 @@ def expected(case):
     if op == "lshift": return ("ok", [args[0] * 2])
     if op == "rshift": return ("ok", [args[0] // 2])
     if op == "is_zero": return ("ok", [int(args[0] == 0)])
+    if op == "is_even": return ("ok", [int(args[0] % 2 == 0)])
     if op == "root_n":
         x, n = args
         if n == 0 or n >= B: return None
